@@ -685,6 +685,12 @@ func (vc *VC) evalCall(e *SExpr, env *Env) *Val {
 		case "off":
 			x := vc.eval(args[0], env)
 			return &Val{T: fmt.Sprintf("(s_off %s)", x.T), Ty: MathInt}
+		case "zero":
+			tv := vc.eval(args[0], env)
+			if !tv.IsType || tv.TypeV == nil {
+				vc.evalFail(env, "zero needs a type")
+			}
+			return &Val{T: vc.zeroValue(tv.TypeV), Ty: tv.TypeV}
 		case "wrap":
 			// wrap(x, T): x reduced to the range of integer type T as Go does
 			x := vc.eval(args[0], env)
